@@ -1367,6 +1367,13 @@ def run(chk):
             if (res.result in (None, "equal")) != silent(res):
                 chk.violation("root-result", "the root is marked as a difference although nothing is reported, or not marked although "
                               "something is (unmarked = result None or 'equal')", describe(a, b, bits), silent(res), res.result)
+            # the same coherence one level down: an object whose sub-tree reports a difference is itself reported as
+            # changed (a reader of the tree or of cancompare's output stops at nodes marked equal)
+            hidden = [(n.type, refname(n)) for n, _ in nodes(res)
+                      if n.result in (None, "equal") and any(d.result not in (None, "equal") for d, _ in nodes(n))]
+            if hidden:
+                chk.violation("inner-node-result", "an object is marked equal although a difference is reported below it",
+                              describe(a, b, bits), [], hidden[:6])
             if j in tie_pick:
                 tie(case, enc, dict(tag=tag, ignore=bits))
 
